@@ -341,7 +341,13 @@ Definition compare_client (s : scn) (extra : Z -> option bytes) : option sexp :=
   let lats := fit_lats s accs [] in
   let tr := model_trace s lats in
   (* the consumer of msgsFromPanel starts receiving at s_recvfrom: earlier deliveries are handed over then *)
-  let mg := map (fun g => mkGrp (g_con g) (map (fun d => (Z.max (fst d) (s_recvfrom s), snd d)) (g_dlv g)) (g_dis g)) (model_groups tr) in
+  (* ... and while a delivery is parked in the channel send the read loop does nothing else: a disconnect of
+     that connection cannot be reported before the parked delivery has been taken *)
+  let mg := map (fun g =>
+                   let parked := existsb (fun d => fst d <? s_recvfrom s) (g_dlv g) in
+                   mkGrp (g_con g) (map (fun d => (Z.max (fst d) (s_recvfrom s), snd d)) (g_dlv g))
+                         (map (fun d => (if parked then Z.max (fst d) (s_recvfrom s) else fst d, snd d)) (g_dis g)))
+                (model_groups tr) in
   let og := obs_groups o in
   if model_fuel_out tr then Some (L [sym "badcase"; sym "fuel"])
   else if negb (Nat.eqb (List.length (dial_times tr)) (List.length accs)) then
@@ -363,7 +369,10 @@ Definition compare_client (s : scn) (extra : Z -> option bytes) : option sexp :=
         let c := nth (Z.to_nat i) (s_conns s) (mkCS [] [] None) in
         let is_reset := match cs_end c with Some (_, true) => true | _ => false end in
         let expect := app_tr (nth (Z.to_nat i) wrote []) (app_tr (s_cbwrite s) (match extra i with Some e => e | None => [] end)) in
-        negb is_reset && (negb (bytes_eqb recv expect) || (kind =? 0))
+        (* submissions whose bytes this comparison is not told about ([extra] silent, C11): the peer may
+           have received more than the negotiation bytes; what the writer adds is C09's subject *)
+        let untold := match s_subs s, extra i with _ :: _, None => true | _, _ => false end in
+        negb is_reset && ((if untold then negb (has_prefix expect recv) else negb (bytes_eqb recv expect)) || (kind =? 0))
       end) peers in
   if negb (Nat.eqb (List.length peers) (List.length accs)) || bad_peer then
     Some (mism "content" "peer-received-or-not-closed" [L (map (fun b => B b) wrote)])
@@ -371,7 +380,12 @@ Definition compare_client (s : scn) (extra : Z -> option bytes) : option sexp :=
     Some (mism "timing" "dial" [L (map I lats)])
   else if negb (list_eqb grp_times_ok mg og) then
     Some (mism "timing" "events" [L (map times_of_grp mg)])
-  else if negb (match model_ret tr, obs_ret o with Some a, Some b => close_to a b | _, _ => true end) then
+  else if negb (match model_ret tr, obs_ret o with
+                | Some a, Some b =>
+                  (* the return, like the last disconnect, waits for a delivery parked in the channel send *)
+                  let parked := existsb (fun g => existsb (fun d => fst d <? s_recvfrom s) (g_dlv g)) (model_groups tr) in
+                  close_to (if parked then Z.max a (s_recvfrom s) else a) b
+                | _, _ => true end) then
     Some (mism "timing" "returned" [match model_ret tr with Some a => I a | None => I (-1) end])
   else if negb (match obs_ret o, obs_wg o with Some a, Some b => b - fold_left Z.max (obs_wexits o) a <=? tol | _, _ => true end) then
     Some (mism "timing" "wg" [])
@@ -459,7 +473,18 @@ Definition delivery_clause (s : scn) (i : nat) (g : grp) (v : cview) : bool :=
   let (e, f) := expected s v in
   let cut := match f with Some (tf, _) => Z.min (cv_cut v) (tf + 2 * margin) | None => cv_cut v end in
   let (must, may) := must_may e cut in
-  deliveries_ok (map snd (g_dlv g)) must may.
+  (* Environment assumption of the property: the application keeps receiving from msgsFromPanel.
+     While it does not (before s_recvfrom) the read loop is parked on its FIRST undelivered frame and
+     reads nothing further; when the cut (cancellation, socket closed by the client itself) falls
+     into that period, only that first frame is owed - the later ones were never read and may or may
+     not come.  Order, multiplicity and "nothing else" are judged as always. *)
+  let slow := (0 <? s_recvfrom s) && (Z.of_nat i =? 0)%Z && (cut + 0 <? s_recvfrom s + margin) in
+  if slow then
+    match must with
+    | [] => deliveries_ok (map snd (g_dlv g)) [] may
+    | m :: rest => deliveries_ok (map snd (g_dlv g)) [m] (rest ++ may)
+    end
+  else deliveries_ok (map snd (g_dlv g)) must may.
 
 Fixpoint for_conns {A} (f : nat -> grp -> option A) (i : nat) (gs : list grp) : option A :=
   match gs with
